@@ -14,17 +14,48 @@ TRUST = (
 )
 
 # property -> (category, technique, text, design_ref, extra note)
+HELD = " Held = no disagreement on the executions listed in evidence; it says nothing about programs/inputs outside the generated corpus."
 CHECKS = {
-    "C16": (
-        "exploration",
-        "runtime monitor: set-of-leaf-paths reference model over enumerated selection expressions; observed resample/move sets",
-        "Every enumerated/sampled selection expression is executed against the real match chain, Fn/Vmap/Scan/Cond filter "
-        "and merge, seed(regenerate), mala and hmc, and compared with an independent Python-set interpretation of the "
-        "expression; atoms and depth-1 expressions are enumerated completely, deeper ones sampled. Held = no disagreement "
-        "on the executions listed in evidence.",
-        "DESIGN §4 C16",
-        "",
-    ),
+    "C01": ("exploration", "runtime monitor: generated program corpus vs independent float64 reference interpreter; probe-site events; exhaustive outcome-script enumeration for discrete programs",
+            "Generated programs of the modelling language are executed (assess, log_density, seed(simulate); eager, jit, vmap over keys) and every result is compared with an independent reference interpreter; probe sites log the parameters each site saw; for small discrete programs the exact pmf of simulate is obtained by enumerating all outcome scripts." + HELD, "DESIGN §4 C01", ""),
+    "C02": ("exploration", "runtime monitor: constraint-subset sweep vs reference interpreter; probe-site events; exact E[exp(weight)] by outcome-script enumeration",
+            "For each generated program generate is run with none/all/single/random constraint subsets; constrained values, coherence, weight (= reference log-probs of constrained addresses), conditional-prior parameters of unconstrained sites and, on discrete programs, exact unbiasedness are decided against the reference." + HELD, "DESIGN §4 C02", ""),
+    "C03": ("exploration", "runtime monitor: update moves (argument changes incl. Cond switches x constraint subsets) vs reference density ratio; discard round trip",
+            "update is run on simulated traces with unchanged/perturbed arguments and constraint subsets; weight = visible density ratio, kept values bitwise, discard = old visible values, round trip restores choices with negated weight, Trace.update agrees." + HELD, "DESIGN §4 C03", ""),
+    "C04": ("exploration", "runtime monitor: selection-expression sweep vs set-of-leaf-paths reference; probe-site events; exact conditional law by outcome-script enumeration",
+            "regenerate is run with selection expressions over each program's address tree under same/changed arguments: definedness, coherence, unselected bitwise, fresh draws with conditional-prior parameters (site events), MH weight, discard, and on discrete programs the exact law of the resampled part." + HELD, "DESIGN §4 C04", ""),
+    "C05": ("exploration", "history monitor: random operation sequences with an invariant oracle (reference interpreter) after every step",
+            "Random histories of update/regenerate/mh/mala/hmc/vectorize-resample-index/jit round trips are applied; after every step coherence, recorded args, observed addresses, telescoping of update weights and the handler-stack invariant are checked; operation-bigram coverage is measured." + HELD, "DESIGN §4 C05", ""),
+    "C06": ("exploration", "runtime monitor: repeat / perturbing-history / fault-injection differential testing of seeded functions; invariant hooks on global_counter and handler_stack",
+            "Seeded functions are re-evaluated after perturbing call histories (unseeded draws, other programs, other avals, failing GFI calls) and under jit/vmap; outputs must be bit-identical resp. transform-stable; hidden state is hooked." + HELD, "DESIGN §4 C06", ""),
+    "C07": ("exploration", "runtime monitor: per-run distinctness of equally parameterised draws and of observed sub-keys; calibrated independence tests over key batches",
+            "Programs whose sites share parameters at every structural position are run under seed; draws and observed sub-keys must be pairwise distinct per run, and KS / Fisher-z / contingency tests over key batches (family-wise false alarm <= 1e-9) bound dependence." + HELD, "DESIGN §4 C07", ""),
+    "C08": ("exploration", "runtime monitor: per-lane eager evaluation as reference for modular_vmap outputs; probe-site events per lane; Vmap/repeat through all GFI methods vs per-lane reference interpreter",
+            "Generated functions with density and sampling sites are mapped with many axis specifications and compared lane by lane with eager evaluation of the same function; probe events show one draw per lane with that lane's parameters; Vmap combinator variants (int/1/-1/None axes, repeat) run through simulate/assess/generate/update/regenerate." + HELD, "DESIGN §4 C08", ""),
+    "C09": ("exploration", "runtime monitor with scripted kernel randomness: logged proposal noise / momentum, accept uniform scripted around the float64 reference acceptance probability; exact transition matrices by outcome-script enumeration",
+            "One kernel step is executed with its internal randomness replaced by probe sites; proposals are compared with float64 reference MALA/leapfrog computations, the accept decision is bracketed just below/above the reference probability, rejected moves must be bit-identical; small discrete targets (incl. mixture indicators feeding a Cond) get their full transition matrix checked for detailed balance." + HELD, "DESIGN §4 C09", ""),
+    "C10": ("exploration", "runtime monitor: per-particle weight identities vs float64 reference; exact E[exp(lml)] by enumeration of all particle/ancestor outcome scripts; calibrated z-test with real samplers",
+            "SMC pipelines on HMM-like models: every particle's weight increment, the site parameters each particle saw, the marginal-estimate bookkeeping; exact unbiasedness of the evidence and of weighted estimates on small instances (N<=3,T<=3) incl. rejuvenation_smc; sampled unbiasedness with MH rejuvenation." + HELD, "DESIGN §4 C10", ""),
+    "C11": ("exploration", "runtime monitor: enumeration / scripted randomness of ADEV estimators vs analytic expectations and derivatives; pathwise identities; calibrated z-tests",
+            "Expectation programs built from the ADEV primitives are evaluated; enumeration estimators must be exact with zero variance, reparameterised ones pathwise-exact per draw, score-function/MVD ones exact in mean over all outcomes (composed programs included)." + HELD, "DESIGN §4 C11", ""),
+    "C12": ("exploration", "runtime monitor with scripted resampling randomness and tagged particles; float64 breakpoint reference; exact binomial tests with real samplers",
+            "resample is run on tagged particle collections with the systematic offset and categorical ancestors scripted: copies name one source, weights reset, estimate preserved, floor/ceil copies for a dense offset grid incl. all breakpoints, exact expected copies." + HELD, "DESIGN §4 C12", ""),
+    "C13": ("exploration", "runtime monitor: scipy float64 reference densities under the documented parameterisation; quadrature normalisation; exact finite-n goodness-of-fit tests on seeded draws",
+            "All 24 distributions (positional and keyword forms, user wrappers): logpdf on support grids, normalisation, sampler shape/dtype and goodness of fit (scalar, batched, sample_shape, modular_vmap) at family-wise false alarm <= 1e-9." + HELD, "DESIGN §4 C13", ""),
+    "C14": ("fault_enumeration", "runtime monitor: exhaustive enumeration of sampling-site placements under JAX transformations to bounded depth, with and without seed; jaxpr scan for residual sample primitives",
+            "Every placement of a sampling site under the listed constructs (depth 2 quick / 3 thorough) is executed without and with seed; without seed compilation must raise the dedicated error, with seed the result must be key-determined with no sample primitive left, or raise that error." + HELD, "DESIGN §4 C14", ""),
+    "C15": ("exploration", "differential runtime testing: ADEV jvp/grad/estimate vs jax.jvp/jax.grad/f on generated deterministic programs",
+            "Generated deterministic JAX programs over scalar/array/pytree arguments are pushed through expectation(f).jvp_estimate/grad_estimate/estimate and compared with JAX's own AD." + HELD, "DESIGN §4 C15", ""),
+    "C16": ("exploration", "runtime monitor: set-of-leaf-paths reference model over enumerated selection expressions; observed resample/move sets",
+            "Every enumerated/sampled selection expression is executed against the real match chain, Fn/Vmap/Scan/Cond filter and merge, seed(regenerate), mala and hmc, and compared with an independent Python-set interpretation of the expression; atoms and depth-1 expressions are enumerated completely, deeper ones sampled." + HELD, "DESIGN §4 C16", ""),
+    "C17": ("exploration", "runtime monitor: conjugate targets with closed-form ELBO/evidence/gradients; per-draw tightness at the posterior; hooked optimiser iterations checked against the update rule; calibrated z-tests",
+            "ELBO objectives on conjugate targets: estimate == log p(x) per draw at the exact posterior, calibrated mean tests otherwise, gradient means vs closed form, and every logged optimisation iteration vs params + lr*grad." + HELD, "DESIGN §4 C17", ""),
+    "C18": ("fault_enumeration", "runtime monitor: complete (n_steps, burn_in, thinning) grid; slice identity against the un-thinned run of the same key; per-step kernel log",
+            "For every grid point the result of chain must equal the slice [burn_in::thin] of the un-thinned run with the same key (bitwise), accepts/acceptance_rate/n_steps consistent with a per-step log of the kernel; multi-chain axes and independence." + HELD, "DESIGN §4 C18", ""),
+    "C19": ("exploration", "runtime monitor: generated save/namespace/scan/vmap placements vs an independent pure-Python collector",
+            "Placement specs are run as state(f), jit(state(f)), seed(state(f)), state(seed(f)) and compared with a reference that threads namespaces and stacks values itself." + HELD, "DESIGN §4 C19", ""),
+    "C20": ("exploration", "runtime monitor: brute-force enumeration and dense Gaussian conditioning as oracles; exact FFBS law with scripted randomness",
+            "forward_filter / kalman_filter / kalman_smoother / backward_sample and the step models are run on generated model families and compared with brute-force sums over all state sequences and dense joint-Gaussian conditioning." + HELD, "DESIGN §4 C20", ""),
 }
 
 NOT_YET = "check not built yet in this session (in progress; see DESIGN §4b build order)"
